@@ -222,6 +222,36 @@ func registerIOModels() {
 		desc:  "ParseUint(s, 10, 64): err == nil ==> s is [0-9]+; if s has that shape with at most 18 digits then err == nil and the value is its decimal value (decval)",
 		apply: parse(false),
 	}
+	libModels["utf8.DecodeRuneInString"] = &libModel{
+		desc: "DecodeRuneInString(s): len(s) == 0 gives (RuneError, 0); otherwise 1 <= size <= min(4, len(s)); a first byte < 0x80 gives (that byte, 1); otherwise 0x80 <= r <= 0x10FFFF and every one of the size bytes consumed is >= 0x80",
+		apply: func(c *FnCtx, st *State, in ssa.Instruction, cc *ssa.CallCommon, args []Val) Val {
+			s := args[0].(VStr)
+			r := c.declare("dr.r", sInt)
+			sz := c.declare("dr.size", sInt)
+			first := strAt(s, "0")
+			c.assume(st, and(
+				implies(eq(s.Len, "0"), and(eq(r, "65533"), eq(sz, "0"))),
+				implies(lt("0", s.Len), and(le("1", sz), le(sz, "4"), le(sz, s.Len),
+					implies(lt(first, "128"), and(eq(r, first), eq(sz, "1"))),
+					implies(le("128", first), and(le("128", r), le(r, "1114111"),
+						implies(lt("1", sz), le("128", strAt(s, "1"))), implies(lt("2", sz), le("128", strAt(s, "2"))), implies(lt("3", sz), le("128", strAt(s, "3")))))))))
+			return VTuple{E: []Val{VInt{r}, VInt{sz}}}
+		},
+	}
+	libModels["unicode.IsLetter"] = &libModel{
+		desc: "IsLetter(r) is the uninterpreted predicate ULetter(r), which for r < 0x80 holds exactly for A-Z and a-z (false for negative r)",
+		apply: func(c *FnCtx, st *State, in ssa.Instruction, cc *ssa.CallCommon, args []Val) Val {
+			c.eng.needUnicode = true
+			return VBool{app("ULetter", args[0].(VInt).T)}
+		},
+	}
+	libModels["unicode.IsNumber"] = &libModel{
+		desc: "IsNumber(r) is the uninterpreted predicate UNumber(r), which for r < 0x80 holds exactly for 0-9 (false for negative r)",
+		apply: func(c *FnCtx, st *State, in ssa.Instruction, cc *ssa.CallCommon, args []Val) Val {
+			c.eng.needUnicode = true
+			return VBool{app("UNumber", args[0].(VInt).T)}
+		},
+	}
 	libModels["fmt.Sprintf"] = &libModel{
 		desc: "Sprintf(\"%%%02x\", byte) returns the 3 bytes '%', hi, lo with hi/lo the lower-case hex digits of the byte; every other format is abstracted (pure, result unconstrained)",
 		apply: func(c *FnCtx, st *State, in ssa.Instruction, cc *ssa.CallCommon, args []Val) Val {
